@@ -1320,7 +1320,8 @@ def normalize_image(
             return data.clamp(a, b)
 
     if mode in ("zscore", "z-score"):
-        data = clamp_fn(data, min, max)
+        if min is not None or max is not None:
+            data = clamp_fn(data, min, max)
         stdev, mean = torch.std_mean(data)
         data = sub_fn(data, mean)
         if stdev > 1e-15:
